@@ -4,7 +4,8 @@
 For each seeded/<id>/patch.diff: apply it to /repo (git apply), run `./check <property>` (quick tier; the thorough
 tier as well when the quick tier stays silent; with --all also the quick tier of every other property), record what
 was reported in seeded/<id>/result.json, and undo it (git checkout -- .).  Evidence and replays of these runs go to
-a scratch directory, never to /verif/evidence.  Nothing else may use /repo while this runs."""
+a scratch directory, never to /verif/evidence.  Nothing else may use /repo while this runs, unless --scratch is
+given: then a scratch git worktree of /repo's HEAD is used instead of /repo (removed afterwards)."""
 import json, os, re, shutil, subprocess, sys, tempfile, time
 
 VERIF = os.path.dirname(os.path.dirname(os.path.abspath(__file__)))
@@ -36,15 +37,25 @@ def run_check(prop, tier, env):
 
 
 def main():
+    global REPO
     args = sys.argv[1:]
     every = '--all' in args
     only = [a for a in args if not a.startswith('--')]
-    rc, out = sh('git -C %s status --porcelain' % REPO)
-    if out.strip():
-        sys.exit('refusing: /repo has uncommitted changes:\n' + out)
     scratch = tempfile.mkdtemp(prefix='seeded_run_')
     env = dict(os.environ, VERIF_EVIDENCE_DIR=os.path.join(scratch, 'evidence'),
                VERIF_REPLAY_DIR=os.path.join(scratch, 'replays'))
+    wt = None
+    if '--scratch' in args:
+        # work on a scratch worktree of /repo's HEAD instead of /repo itself (the checks follow VERIF_REPO)
+        wt = os.path.join(scratch, 'repo')
+        rc, out = sh('git -C /repo worktree add -q --detach %s HEAD' % wt)
+        if rc != 0:
+            sys.exit('cannot create the scratch worktree: ' + out)
+        REPO = wt
+        env['VERIF_REPO'] = wt
+    rc, out = sh('git -C %s status --porcelain' % REPO)
+    if out.strip():
+        sys.exit('refusing: %s has uncommitted changes:\n' % REPO + out)
     props = ['C%02d' % i for i in range(1, 20)]
     rows = []
     try:
@@ -79,6 +90,9 @@ def main():
             print(name, caught, (res['quick']['first'] or res.get('thorough', {}).get('first') or [''])[0], flush=True)
     finally:
         sh('git -C %s checkout -- .' % REPO)
+        if wt:
+            sh('git -C /repo worktree remove --force %s' % wt)
+            sh('git -C /repo worktree prune')
         shutil.rmtree(scratch, ignore_errors=True)
     print('\n'.join('%-10s %s' % r for r in rows))
 
